@@ -5,7 +5,8 @@ import numpy as np
 
 from .common import *  # noqa: F401,F403
 from .common import (Check, OracleFailure, SymEnv, RealEnv, both, sym_pixels, pixels_from_inputs, scratch_file, symcooler, known_active)
-from .model import (build_cooler_sym, build_cooler_real, read_pixels_sym, read_pixels_real, validity_sym, validity_real)
+from .model import (build_cooler_sym, build_cooler_real, read_pixels_sym, read_pixels_real, validity_sym, validity_real, tables_kept_sym,
+                    tables_kept_real)
 from engine.symnp import _sel
 from engine.symcore import SReal
 
@@ -88,7 +89,8 @@ ONE_CHROM = [False]
 def _bins(total, w):
     import pandas as pd
     rows = []
-    for c, L in ((("c0", total),) if ONE_CHROM[0] else (("c0", total), ("c1", total // 2 + 1))):
+    # two chromosomes whose order in the file is not the lexicographic order of their names
+    for c, L in ((("chr2", total),) if ONE_CHROM[0] else (("chr2", total), ("chr10", total // 2 + 1))):
         pos = 0
         while pos < L:
             rows.append((c, pos, min(pos + w, L)))
@@ -146,6 +148,7 @@ def zoomify_sym(p):
         grp = f"/resolutions/{r}"
         for cond, msg in validity_sym(out, grp):
             prove(cond, f"level {r}: " + msg)
+        tables_kept_sym(out, _bins(total, r), grp, what=f"level {r}")
         pix, attrs = read_pixels_sym(out, grp)
         obs[str(r)] = pix
         o1, o2, oc, ox = pix["bin1_id"], pix["bin2_id"], pix["count"], pix["x"]
@@ -206,6 +209,7 @@ def zoomify_real(p, inputs):
     for r in want:
         grp = f"/resolutions/{r}"
         validity_real(out, grp)
+        tables_kept_real(out, _bins(total, r), grp, what=f"level {r}")
         pix, attrs = read_pixels_real(out, grp)
         obs[str(r)] = pix
         if "x" not in pix:
